@@ -4,7 +4,7 @@ from ..sched import Scheduler
 from ..adversary import ReorderDup
 from ..apps import WApp, is_wormhole_error
 from ..mailbox_work import STRATS, trace_digest, events_view
-from ..monitors import MON
+from ..monitors import MON, state_of
 
 PID = "C14"
 LEVEL = "exploration"
@@ -12,17 +12,20 @@ RULE = ("random legal API programs on 2-3 real wormholes (any interleaving of ge
         "among allocate/set/input with helper calls in any order incl. misuse that must raise only "
         "documented errors, send_message, derive_key, close() any number of times, both API styles; in a "
         "fifth of the cases the program keeps calling the API after its own close() until it observes "
-        "the closure) "
+        "the closure; a share of the programs also calls dilate() at a random point, with directed cases "
+        "closing while a candidate connection is being selected; directed prompt-race cases type the "
+        "code's words just after the wormhole began to close) "
         "against the real server with reordered+duplicated `message` delivery, full replay on "
         "re-open, a real third client (crowded), welcome{error}, link cuts anywhere after the first "
         "open, tcp and (thorough) tls transport modes. Non-trivial = at least one new "
         "(machine,state,input) triple for this run's shard order is not required; a case counts "
         "when >= 25 machine transitions were exercised; distinct = decision traces.")
-ASSUMPTIONS = ["scope: the thirteen mailbox-layer machines + RendezvousConnector",
+ASSUMPTIONS = ["scope: every automat machine of the client (the thirteen mailbox-layer machines, RendezvousConnector, and - in "
+               "the cases that call dilate() - the Dilation machines); subchannels are not used by these programs",
                "after the application has observed closure it issues only get_*/close",
                "server `error` replies other than the consequences of a third participant are flagged"]
-FLOORS = {"quick": {"transitions": 60000, "closed_sides": 1000},
-          "thorough": {"transitions": 3000000, "closed_sides": 50000}}
+FLOORS = {"quick": {"transitions": 60000, "closed_sides": 1000, "dilated_cases": 150, "prompt_race_cases": 50},
+          "thorough": {"transitions": 3000000, "closed_sides": 50000, "dilated_cases": 8000, "prompt_race_cases": 2500}}
 DOCUMENTED_VERDICTS = ("happy", "LonelyError", "WrongPasswordError", "ServerError", "WelcomeError",
                        "ServerConnectionError")
 WORDS = ["purple", "sausages", "alpha", "beta", "zulu", "absurd"]
@@ -38,6 +41,14 @@ def cases(tier, seed, prep=None):
                     "third": i % 7 == 3, "welcome_error": ("nope" if i % 23 == 11 else None),
                     "late_code": i % 9 == 5, "mismatch": i % 11 == 6, "late_welcome_error": i % 13 == 4,
                     "after_close": i % 5 == 2})
+    for i in range(150 if q else 8000):
+        out.append({"kind": "program", "seed": seed * 1000003 + 1490000 + i, "mode": "tcp", "third": i % 9 == 3, "welcome_error": None,
+                    "late_code": i % 9 == 5, "mismatch": i % 11 == 6, "late_welcome_error": i % 13 == 4, "after_close": i % 5 == 2,
+                    "dilate": True})
+    for i in range(40 if q else 2000):
+        out.append({"kind": "program", "seed": seed * 1000003 + 1495000 + i, "mode": "tcp", "third": False, "welcome_error": None,
+                    "late_code": False, "mismatch": False, "late_welcome_error": False, "after_close": False,
+                    "dilate": True, "dilate_race": True})
     for i in range(60 if q else 3000):
         race = ["close", "close+drop", "unwelcome"][i % 3]
         out.append({"kind": "program", "seed": seed * 1000003 + 1480000 + i, "mode": "tcp", "third": False, "welcome_error": None,
@@ -52,8 +63,13 @@ class Prog:
     def __init__(self, world, name, rng, shared, spec):
         self.world, self.name, self.rng, self.shared = world, name, rng, shared
         self.spec = spec
-        self.app = WApp(world, name, api=rng.choice(["deferred", "deferred", "delegate"]),
-                        eager_msgs=rng.random() < 0.7)
+        api = rng.choice(["deferred", "deferred", "delegate"])
+        self.dilate_budget = 0
+        if spec.get("dilate") and name != "C":
+            api = "deferred"          # only the Deferred-mode wormhole has dilate()
+            self.dilate_budget = rng.choice([1, 1, 1, 0])
+        self.dilate_gate = rng.choice(["now", "now", "code", "key", "late"])
+        self.app = WApp(world, name, api=api, eager_msgs=rng.random() < 0.7, dilation=bool(spec.get("dilate")) and name != "C")
         self.method = rng.choice(["alloc", "set", "input"]) if name == "A" else rng.choice(["set", "input", "set-own"])
         if name == "C":
             self.method = "set"
@@ -68,6 +84,11 @@ class Prog:
         # a human at the prompt: the words may be typed only after the peer's PAKE has arrived, or late
         self.words_gate = rng.choice(["any", "any", "pake", "late"])
         self.words_late_at = rng.choice([60, 150])
+        if spec.get("dilate_race") and name != "C":
+            self.close_gate = "never"
+            self.dilate_budget = 1
+            if self.method == "set-own":
+                self.method = "set"
         race = spec.get("prompt_race")
         if race and name == "B":
             # directed: the words reach the wormhole in the window between "closing began" and "the
@@ -201,6 +222,14 @@ class Prog:
                     if type(e).__name__ != "OnlyOneCodeError":
                         self.api_exc.append((self.world.step, "second code call " + which, type(e).__name__, repr(e)[:200]))
             acts.append(((name, "code2"), f))
+        if self.dilate_budget > 0 and not closing:
+            kinds = app.kinds()
+            if (self.dilate_gate == "now" or (self.dilate_gate == "code" and "code" in kinds) or
+                    (self.dilate_gate == "key" and "key" in kinds) or self.world.step > 120):
+                def f():
+                    self.dilate_budget -= 1
+                    self._api("dilate", lambda: app.w.dilate(no_listen=self.rng.random() < 0.2))
+                acts.append(((name, "dilate"), f))
         if self.budget["send"] > 0 and not closing:
             def f():
                 self.budget["send"] -= 1
@@ -297,6 +326,24 @@ def run_case(spec):
         sch.faults.append((k, turn_unwelcome, "welcome error from now on"))
         sch.faults.append((k + rng.randint(1, 40), (lambda i=rng.randint(0, 1): drv.drop(i)), "drop"))
     sch.faults.sort(key=lambda f: f[0])
+    if spec.get("dilate_race"):
+        # directed: close() (or loss of the mailbox-independent peer link) at the moment a candidate
+        # connection has offered itself to the Connector and its acceptance is still queued
+        fired = []
+
+        def hook():
+            if fired:
+                return
+            for p in drv.progs[:2]:
+                mgr = getattr(getattr(p.app.w._boss, "_D", None), "_manager", None)
+                conn = getattr(mgr, "_connector", None)
+                if conn is not None and getattr(conn, "_contenders", None) and state_of(conn) == "connecting":
+                    fired.append(p.name)
+                    if not p.app.close_calls:
+                        p.budget["close"] = max(0, p.budget["close"] - 1)
+                        p._api("close", p.app.close)
+                    return
+        sch.hook = hook
     race = spec.get("prompt_race")
     if race in ("close+drop", "unwelcome"):
         fired = []
@@ -384,7 +431,7 @@ def run_case(spec):
                          "never_closed_sides": sum(int(not p.app.closed) for p in drv.progs),
                          "drops": drv.drops, "third_clients": int(len(drv.progs) > 2),
                          "adv_dups": world.adversary.dups, "adv_out_of_order": world.adversary.out_of_order,
-                         "mode_" + spec.get("mode", "tcp"): 1, "prompt_race_cases": int(bool(spec.get("prompt_race")))},
+                         "mode_" + spec.get("mode", "tcp"): 1, "prompt_race_cases": int(bool(spec.get("prompt_race"))), "dilated_cases": int(bool(spec.get("dilate")))},
             "sets": {"triples": triples, "verdicts": [v for p in drv.progs for v in p.app.close_results]},
             "sample": {"spec": spec, "methods": {p.name: p.method for p in drv.progs},
                        "calls_A": drv.progs[0].app.calls[:25], "events_A": drv.progs[0].app.kinds(),
